@@ -28,6 +28,10 @@ pub struct Case {
     /// 2 = built with other limits and then update_range(from, to)
     #[serde(default)]
     pub ctor: u8,
+    /// history: another constraint set that is sampled once, on the same thread, immediately
+    /// before every observed call
+    #[serde(default)]
+    pub prelude: Option<([f64; 6], [f64; 6])>,
 }
 
 /// Build the constraints the way the case says. The oracle then reads the limits back from the
@@ -90,6 +94,19 @@ pub fn degenerate(from: f64, to: f64) -> bool {
 
 /// One call of the real sampler with dictated outcomes (no scheduler involved).
 fn call(c: &Constraints, row: &[Out]) -> Result<[f64; 6], String> {
+    call_after(c, row, &None)
+}
+
+fn call_after(c: &Constraints, row: &[Out], prelude: &Option<([f64; 6], [f64; 6])>) -> Result<[f64; 6], String> {
+    if let Some((pf, pt)) = prelude {
+        let other = Constraints::new(*pf, *pt, 0.0);
+        let mut ctx = Ctx::idle();
+        ctx.rng = RngPlan::List { items: vec![Outcome::U(0.5); 6], pos: 0 };
+        let old = simctx::install(ctx);
+        let _ = sim::quiet_panics(|| std::panic::catch_unwind(|| other.random_angles()));
+        let _ = simctx::install(old);
+        let _ = sim::take_last_panic();
+    }
     let mut ctx = Ctx::idle();
     ctx.rng = RngPlan::List { items: row.iter().map(|o| o.to_ctx()).collect(), pos: 0 };
     let old = simctx::install(ctx);
@@ -194,7 +211,7 @@ pub fn judge(case: &Case) -> Vec<Fail> {
         return fails;
     }
     for (row, draws) in case.draws.iter().enumerate() {
-        match call(&c, draws) {
+        match call_after(&c, draws, &case.prelude) {
             Ok(v) => judge_vector(case, &c, row, &v, &mut fails),
             Err(msg) => {
                 let classes: Vec<&str> = (0..6).map(|j| class_of(case.from[j], case.to[j])).collect();
@@ -422,16 +439,29 @@ pub fn run(tier_name: &str, seed: u64) -> i32 {
             let ctor = (w.below(5) as u8).min(2); // 0,1,2,2,2 -> weights: new 20%, from_degrees 20%, update_range 60%? no: see below
             let ctor = match ctor { 0 => 0u8, 1 => 1, _ => if w.chance(0.3) { 2 } else { 0 } };
             tally.bump(&format!("constraints_built_by_{}", ["new", "from_degrees", "update_range"][ctor as usize]), 1);
-            let c = build(&Case { from, to, draws: vec![], tasks: 1, cfg: None, ctor });
+            let c = build(&Case { from, to, draws: vec![], tasks: 1, cfg: None, ctor, prelude: None });
             let rows = adversarial_rows(&c, &mut w, t.uniform, t.grid, &mut tally);
             let concurrent = t.concurrent_every > 0 && run % t.concurrent_every == 0;
+            // history: a wider (or narrower) set with bit-identical centres sampled just before
+            // each observed call; limits symmetric about zero have centre exactly 0.0
+            let symmetric = run % 7 == 3;
+            let (from, to, prelude) = if symmetric {
+                let half: [f64; 6] = std::array::from_fn(|_| w.range_f64(0.05, 3.0));
+                let k = if w.chance(0.5) { w.range_f64(1.5, 6.0) } else { w.range_f64(0.05, 0.7) };
+                let f2: [f64; 6] = std::array::from_fn(|j| -(half[j] * k).min(2.0 * PI));
+                let t2: [f64; 6] = std::array::from_fn(|j| (half[j] * k).min(2.0 * PI));
+                tally.bump("history_sets_sampled_after_a_sibling_with_identical_centres", 1);
+                (std::array::from_fn(|j| -half[j]), half, Some((f2, t2)))
+            } else {
+                (from, to, None)
+            };
             let case = if concurrent {
                 let mut knobs = Rng::derive(seed, shard as u64, run as u64, "c18.knobs");
                 let cfg = SimCfg::swarm(&mut knobs, simctx::mix(&[seed, shard as u64, run as u64, 18]), 0, 100_000);
                 tally.bump("concurrent_sampler_runs", 1);
-                Case { from, to, draws: rows.iter().take(24).cloned().collect(), tasks: knobs.range_usize(2, 4), cfg: Some(cfg), ctor }
+                Case { from, to, draws: rows.iter().take(24).cloned().collect(), tasks: knobs.range_usize(2, 4), cfg: Some(cfg), ctor, prelude: None }
             } else {
-                Case { from, to, draws: rows, tasks: 1, cfg: None, ctor }
+                Case { from, to, draws: rows, tasks: 1, cfg: None, ctor: if prelude.is_some() { 0 } else { ctor }, prelude }
             };
             tally.evaluations += case.draws.len() as u64;
             let any_wrap = (0..6).any(|j| from[j] > to[j]);
